@@ -96,6 +96,10 @@ def shards(tier):
             for w in (INITW if cur else INITW[:1]):
                 for first in range(len(ENV)):
                     out.append({'mode': 'full', 'cfg': dict(BASE, side=side, cur=cur, w=w), 'first': first})
+    # no motor control: duty cycle set by hand before the first run and between continuations (seed C13-11)
+    for side in ('lock', 'free'):
+        for cur in (True, False):
+            out.append({'mode': 'hand', 'cfg': dict(BASE, side=side, cur=cur, w=INITW[0])})
     # deviation-bounded sequences on every configuration (single-axis deviations of dt/motor/init/topology)
     for a, b in geometries():
         for side in ('lock', 'free'):
@@ -120,7 +124,7 @@ def shards(tier):
     return out
 
 
-def check_case(acc, cfg, env_seq, cover, split=None):
+def check_case(acc, cfg, env_seq, cover, split=None, hand=None):
     spec = make_spec(cfg['alpha'], cfg['beta'], cfg['side'], cfg['topo'], cfg['cur'], cfg['w'])
     if spec is None:
         acc.outcomes['not-buildable'] += 1
@@ -137,7 +141,15 @@ def check_case(acc, cfg, env_seq, cover, split=None):
     n = len(env_seq)
     dt = [cfg['dt'], 'sec']
     case = {'kind': 'case', 'cfg': cfg, 'env': list(env_seq), 'split': split}
-    if split:
+    if hand:
+        # no motor control at all: the user sets the duty cycle by hand before the first run and between the runs
+        # (hand = one duty cycle per segment; the duty column of env_seq is not used)
+        case['hand'] = list(hand)
+        seg = n // len(hand)
+        ops = []
+        for j, d in enumerate(hand):
+            ops += [('setpwm', d), ('run', dt, [cfg['dt'] * (seg - 1 if j == 0 else seg), 'sec'], None, None)]
+    elif split:
         ops = [('run', dt, [cfg['dt'] * (split - 1), 'sec'], duty, None),
                ('run', dt, [cfg['dt'] * (n - split), 'sec'], duty, None)]
     else:
@@ -161,9 +173,9 @@ def check_case(acc, cfg, env_seq, cover, split=None):
     def emit(sfx, clause, k, detail):
         dd = dict(detail)
         dd.update(instant=k)
-        acc.violation(f'C13/{sfx}' + ('/continued-run' if split else ''), clause, case, dd)
+        acc.violation(f'C13/{sfx}' + ('/continued-run' if split else '') + ('/duty-set-by-hand-between-runs' if hand else ''), clause, case, dd)
 
-    chk, amb = traj.locking(obs, chain, emit, info['dts'], info['starts'], cover)
+    chk, amb = traj.locking(obs, chain, emit, info['dts'], info['starts'], cover, duty_overrides=info.get('duty_overrides'))
     acc.transitions += chk
     acc.ambiguous += amb
     if not chain.self_locking:
@@ -192,6 +204,19 @@ def run_shard(shard, tier):
             s = (shard['first'],) + rest
             check_case(acc, shard['cfg'], s, cover)
         acc.sample({'cfg': shard['cfg'], 'mode': 'full product', 'env_sequence': [ENV[i] for i in s]})
+    elif shard['mode'] == 'hand':
+        duties = sorted({e[0] for e in ENV})
+        loads = [i for i, e in enumerate(ENV) if e[0] == duties[-1]]       # one ENV index per load level
+        segs = 3
+        for hand in itertools.product(duties, repeat=3):
+            for li in loads:
+                check_case(acc, shard['cfg'], (li,) * (segs * 3), cover, hand=hand)
+        if tier != 'quick':
+            for hand in itertools.product(duties, repeat=2):
+                for li, lj in itertools.product(loads, repeat=2):
+                    check_case(acc, shard['cfg'], (li,) * 4 + (lj,) * 4, cover, hand=hand)
+        acc.sample({'cfg': shard['cfg'], 'mode': 'no motor control: duty cycle set by hand before the first run and between two continuations',
+                    'duties': list(hand), 'segments_of_instants': segs})
     else:
         hz = 6 if tier == 'quick' else 10
         for ci, cfg in enumerate(shard['cfgs']):
@@ -216,6 +241,7 @@ def run_shard(shard, tier):
 def replay(case):
     acc = Acc()
     if case.get('kind') == 'case':
-        check_case(acc, case['cfg'], tuple(case['env']), collections.Counter(), split=case.get('split'))
+        check_case(acc, case['cfg'], tuple(case['env']), collections.Counter(), split=case.get('split'),
+                   hand=tuple(case['hand']) if case.get('hand') else None)
         return acc.violations
     return run_shard(case['shard'], 'quick').violations
